@@ -45,24 +45,24 @@ type LinkSpec struct {
 }
 
 type Op struct {
-	Kind    string         `json:"kind"`
-	Name    string         `json:"name,omitempty"`
-	Target  int            `json:"target,omitempty"`
-	Size    uint64         `json:"size,omitempty"`
-	Data    []byte         `json:"data,omitempty"`
-	NilData bool           `json:"nil_data,omitempty"`
-	Links   []LinkSpec     `json:"links,omitempty"`
+	Kind    string          `json:"kind"`
+	Name    string          `json:"name,omitempty"`
+	Target  int             `json:"target,omitempty"`
+	Size    uint64          `json:"size,omitempty"`
+	Data    []byte          `json:"data,omitempty"`
+	NilData bool            `json:"nil_data,omitempty"`
+	Links   []LinkSpec      `json:"links,omitempty"`
 	Prefix  *kit.PrefixSpec `json:"prefix,omitempty"`
 }
 
 type Case struct {
-	Start       string         `json:"start"` // new | data | decoded | block | unsorted
-	StartData   []byte         `json:"start_data,omitempty"`
-	StartNil    bool           `json:"start_nil,omitempty"`
-	StartLinks  []LinkSpec     `json:"start_links,omitempty"`
+	Start       string          `json:"start"` // new | data | decoded | block | unsorted
+	StartData   []byte          `json:"start_data,omitempty"`
+	StartNil    bool            `json:"start_nil,omitempty"`
+	StartLinks  []LinkSpec      `json:"start_links,omitempty"`
 	StartPrefix *kit.PrefixSpec `json:"start_prefix,omitempty"`
-	Ops         []Op           `json:"ops"`
-	Perm        []int          `json:"perm"` // sort keys for the insertion-order permutation
+	Ops         []Op            `json:"ops"`
+	Perm        []int           `json:"perm"` // sort keys for the insertion-order permutation
 }
 
 var names = []string{"", "a", "b", "c", "ab", "a ", "B", "ü", "日本"}
